@@ -219,6 +219,9 @@ def sub_ape_result(case):
     o = case["opts"]
     relation = o["relation"]
     ro, eo = ref.build(case["ref"]["pre"], timed=True), est.build(case["est"]["pre"], timed=True)
+    for v in o.get("pre_derived", ()):
+        # derived quantities read before the evaluation (e.g. by an earlier plot or evaluation of the same objects)
+        getattr(ro, v), getattr(eo, v)
     unit0 = metrics.APE(REL[relation]).unit
     cu = None
     if o["change_unit"]:
@@ -282,6 +285,8 @@ def sub_rpe_result(case):
             P[i] = P[i - 1]
         ref = trajgen.Real(P, ref.Rs(), ref.mode, ref.T)
         ro = ref.build(case["ref"]["pre"], timed=True)
+    for v in o.get("pre_derived", ()):
+        getattr(ro, v), getattr(eo, v)
     try:
         res = main_rpe.rpe(ro, eo, REL[relation], float(delta), Unit.frames, all_pairs=o["all_pairs"], align=o["align"],
                            ref_name="reference", est_name="estimate", change_unit=cu, support_loop=o["support_loop"])
@@ -403,10 +408,12 @@ def _pair_with(opts):
 
 st_ape = _pair_with(st.fixed_dictionaries({
     "relation": st.sampled_from([r for r in rm.RELATIONS if r != "point_distance_error_ratio"]), "align": st.booleans(),
-    "correct_scale": st.booleans(), "align_origin": st.booleans(), "change_unit": st.booleans(), "cu_i": st.integers(0, 3)}))
+    "correct_scale": st.booleans(), "align_origin": st.booleans(), "change_unit": st.booleans(), "cu_i": st.integers(0, 3),
+    "pre_derived": st.lists(st.sampled_from(["distances", "path_length", "speeds"]), max_size=2, unique=True)}))
 st_rpe = _pair_with(st.fixed_dictionaries({
     "relation": st.sampled_from(list(rm.RELATIONS) + ["point_distance_error_ratio"] * 3), "align": st.booleans(), "all_pairs": st.booleans(), "delta": st.integers(0, 12),
     "change_unit": st.booleans(), "cu_i": st.integers(0, 3), "support_loop": st.booleans(), "still": st.booleans(),
+    "pre_derived": st.lists(st.sampled_from(["distances", "path_length", "speeds"]), max_size=2, unique=True),
     "dunit": st.sampled_from(["f", "f", "m", "r"])}))
 
 SUBS = [
